@@ -167,7 +167,40 @@ def run_c38(prop):
     return v.finish()
 
 
+def run_c37(prop):
+    quick = vlib.tier() != "thorough"
+    v = Verdict(prop, "exploration")
+    v.rule = ("case = one fault scenario on a real 3-node cluster (30 (thorough 60) steps of client writes, inbound cut / drop / delay per node, heal, and - on persistent storage - "
+              "crash and restart of a node), recorded and validated by TLC; non-trivial = at least one acknowledged write and one fault or crash; distinct by seed")
+    v.assumptions = ["faults act on connections TO a node (every node reaches a peer through the one address in the membership): inbound cut / drop / delay, not per-direction loss",
+                     "the per-index state digest comes from hook H10, taken inside the store before the new state is published",
+                     "in-memory nodes never restart (a restarted in-memory node would be a new, empty node)"]
+    w = workdir("raft37")
+    r = tlc("ReplModel", open(os.path.join(SPEC, "ReplModel.cfg")).read().replace("MaxCmds = 2", "MaxCmds = %d" % (2 if quick else 3)), "rm_mc", workers=8, timeout=3000)
+    if r.error or r.violated:
+        raise vlib.ToolError("ReplModel: %s %s" % (r.error, r.violated))
+    v.add_tlc(r, "ReplModel: Agreement, Durable, OneLeaderPerTerm for 3 nodes, 3 terms")
+    r0 = tlc("ReplModel", open(os.path.join(SPEC, "ReplModel.cfg")).read().replace("VoteCheck = TRUE", "VoteCheck = FALSE"), "rm_bad", workers=8, timeout=3000)
+    if not r0.violated:
+        raise vlib.ToolError("ReplModel without the vote check should violate an invariant")
+    v.notes.append("ReplModel sanity: without the up-to-date check in elections %s is violated" % r0.violated)
+    rp, tp = os.path.join(w, "report.json"), os.path.join(w, "trace.ndjson")
+    run_harness("vhraft", ["cluster-record", rp, tp, 4 if quick else 40, 30 if quick else 60], features="persistent", timeout=6000)
+    rep = load_report(rp)
+    v.add_report(rep)
+    ok = vlib.tv_blocks(v, prop, SPEC, "ReplLog", [], ["RAgree", "RMono", "RDurable"], tp, "cl", conform=None)
+    recs = vlib.read_ndjson(tp)
+    v.notes.append("%d scenarios, %d trace records (%d applies, %d acks, %d faults, %d crashes) accepted blocks: %d; counters %s" % (
+        rep["total"], len(recs), sum(1 for x in recs if x["ev"] == "apply"), sum(1 for x in recs if x["ev"] == "ack"),
+        sum(1 for x in recs if x["ev"] == "fault"), sum(1 for x in recs if x["ev"] == "crash"), ok, rep["counters"]))
+    if sum(1 for x in recs if x["ev"] == "ack") == 0:
+        raise vlib.ToolError("no acknowledged write in any scenario: vacuous")
+    return v.finish()
+
+
 def run(prop, replay=None):
+    if prop == "C37":
+        return run_c37(prop)
     if prop == "C38":
         return run_c38(prop)
     if prop == "C35":
